@@ -670,3 +670,76 @@ func (g *G) Frame(kind string) *frame.Frame {
 	}
 	return f
 }
+
+// Enlarge grows the lists of a message beyond 1024 entries (the size up to which decoders allocate up front): many columns,
+// rows, values, batch children, options, failure reasons, bound-variable indices. Messages without lists are left alone.
+// Returns whether anything was enlarged.
+func (g *G) Enlarge(f *frame.Frame) bool {
+	n := 1025 + g.R.Intn(200)
+	switch m := f.Body.Message.(type) {
+	case *message.RowsResult:
+		if g.R.Bool() {
+			cols := make([]*message.ColumnMetadata, n)
+			for i := range cols {
+				cols[i] = &message.ColumnMetadata{Keyspace: "ks", Table: "t", Name: fmt.Sprintf("c%d", i), Type: primTypes[i%len(primTypes)]}
+			}
+			m.Metadata = &message.RowsMetadata{ColumnCount: int32(n), Columns: cols}
+			m.Data = message.RowSet{}
+		} else {
+			m.Metadata = &message.RowsMetadata{ColumnCount: 2}
+			m.Data = make(message.RowSet, n)
+			for i := range m.Data {
+				m.Data[i] = message.Row{[]byte{byte(i)}, nil}
+			}
+		}
+	case *message.PreparedResult:
+		cols := make([]*message.ColumnMetadata, n)
+		for i := range cols {
+			cols[i] = &message.ColumnMetadata{Keyspace: "ks", Table: "t", Name: fmt.Sprintf("v%d", i), Type: primTypes[i%len(primTypes)]}
+		}
+		m.VariablesMetadata = &message.VariablesMetadata{Columns: cols}
+		if g.V >= primitive.ProtocolVersion4 {
+			pk := make([]uint16, n)
+			for i := range pk {
+				pk[i] = uint16(i)
+			}
+			m.VariablesMetadata.PkIndices = pk
+		}
+	case *message.Supported:
+		m.Options = map[string][]string{}
+		for i := 0; i < n; i++ {
+			m.Options[fmt.Sprintf("OPT%d", i)] = []string{"a", fmt.Sprint(i)}
+		}
+	case *message.Batch:
+		m.Children = make([]*message.BatchChild, n)
+		for i := range m.Children {
+			m.Children[i] = &message.BatchChild{Query: fmt.Sprintf("INSERT %d", i), Values: []*primitive.Value{primitive.NewValue([]byte{byte(i)})}}
+		}
+	case *message.Execute:
+		if m.Options == nil {
+			m.Options = &message.QueryOptions{Consistency: primitive.ConsistencyLevelOne}
+		}
+		m.Options.NamedValues = nil
+		m.Options.PositionalValues = make([]*primitive.Value, n)
+		for i := range m.Options.PositionalValues {
+			m.Options.PositionalValues[i] = primitive.NewValue([]byte{byte(i), 1})
+		}
+	case *message.ReadFailure:
+		if SpecReasonMap(g.V) {
+			m.FailureReasons = make([]*primitive.FailureReason, n)
+			for i := range m.FailureReasons {
+				m.FailureReasons[i] = &primitive.FailureReason{Endpoint: []byte{10, byte(i >> 16), byte(i >> 8), byte(i)}, Code: primitive.FailureCodeTooManyTombstonesRead}
+			}
+		} else {
+			return false
+		}
+	case *message.Register:
+		m.EventTypes = make([]primitive.EventType, n)
+		for i := range m.EventTypes {
+			m.EventTypes[i] = primitive.EventTypeStatusChange
+		}
+	default:
+		return false
+	}
+	return true
+}
